@@ -1,0 +1,7 @@
+//go:build !verif
+// +build !verif
+
+package media
+
+// verifTaskPosted is a no-op without the verif tag.
+func verifTaskPosted(t *runZeroConsumersClose) {}
